@@ -140,6 +140,10 @@ func applyTraced(d *dynRunner, i int, op *Op, sb *strings.Builder) {
 			fmt.Fprintf(sb, "|%s/%v/%v", o.Text, o.Tags, o.Disabled)
 		}
 		sb.WriteString("\n")
+		if (r.Kind == rLine || r.Kind == rOptions) && len(d.h.kept) > 0 {
+			// the whole element as the host received it: markup attributes and their properties included
+			fmt.Fprintf(sb, "  element %s\n", d.h.kept[len(d.h.kept)-1].canon)
+		}
 	} else {
 		fmt.Fprintf(sb, "%d %s\n", i, op.K)
 	}
